@@ -24,6 +24,13 @@ def sh(cmd, timeout=None, env=None, cwd=None, check=False):
 
 def build(flavour="hooks"):
     """Build the library from /repo's working tree and the harness against it."""
+    if os.environ.get("VERIF_COVLIB"):
+        # coverage measurement only (tools/coverage.sh): a gcov-instrumented build of the same tree, harness in <dir>/hx
+        libdir = os.environ["VERIF_COVLIB"]
+        p = sh(["make", "-s", "-C", VERIF + "/harness", "LIBDIR=" + libdir], timeout=600)
+        if p.returncode != 0:
+            raise MachineryError("harness build failed:\n" + p.stdout[-3000:] + p.stderr[-3000:])
+        return libdir, libdir + "/hx/imbdrv"
     p = sh([VERIF + "/tools/build_repo.sh"], timeout=1500, env={"VERIF_FLAVOUR": flavour})
     if p.returncode != 0:
         raise MachineryError("library build failed:\n" + p.stderr[-3000:])
